@@ -49,7 +49,7 @@ func converged(root string, snap run.Snapshot, exp *ref.Result, pre map[string]b
 		}
 	}
 	for _, p := range snap.Files() {
-		if pre[p] || want[p] || strings.HasSuffix(p, ".audit.json") || strings.Contains(p, "_scipipe_tmp") {
+		if pre[p] || want[p] || mon.IsAuditFile(p) || strings.Contains(p, "_scipipe_tmp") {
 			continue
 		}
 		ps = append(ps, mon.Problem{Sig: "recovered-extra-file", Msg: "after recovery there is an additional file " + p})
